@@ -16,7 +16,7 @@ SHIFT_KINDS = [
     {"kind": "partial", "Q": 2},        # (Q, 1, d2): singleton batch dimensions
 ]
 BATCHES = [[], [2], [2, 3]]
-COLS = ["n", "nn", "nzn", "tnh", "ns", "z"]
+COLS = ["n", "nn", "nzn", "tnhs", "ns", "z"]
 FAMS = [("uniform", 10.0), ("geometric", 1e2), ("few3", 1e3), ("geometric", 1e4), ("clustered", 1e4),
         ("identity", 1.0), ("few2", 10.0), ("indef", 1e2)]
 PRES = ["none", "jacobi", "none", "randspd", "clone", "scaled"]
@@ -68,34 +68,39 @@ def oracle_tol(spec, its):
     return None
 
 
-def residual_bound(spec, mi, st):
+def residual_bound(spec, mi, st, exit_kind):
     """bound on ||(vK + s P^-1) x - b|| / ||b|| for a run at the default budget (support only; MINRES convergence is
-    not proved).  The stopping rule looks at the relative UPDATE norm every 10th step, so at the default
-    minres_tolerance (1e-4) an ill-conditioned system (kappa 1e4) may stop on a plateau with a residual of several
-    percent (measured, see design_notes/C11.md): the bound is then only asserted for a tight tolerance."""
+    not proved).  The stopping rule looks at the relative UPDATE norm every 10th step: when the loop is ended by that
+    test at the default minres_tolerance (1e-4) on an ill-conditioned system, a plateau may leave a residual of several
+    percent (measured) - that is the documented criterion, nothing is asserted then.  When the loop is ended by the
+    iteration cap (n + 3 bodies: the Krylov space is exhausted in exact arithmetic) or by the test at a tight
+    tolerance, the residual must be small: max(50 tol, 1e-5) (1e-5: measured 1.6e-6 at kappa 1e2, n 30)."""
     if mi is not None or spec["fam"] == "indef" or spec.get("set_max_cg") is not None or spec.get("dtype") == "float32":
         return None
     if (spec.get("eps") or 0) >= 1e-20 or spec.get("mm") == "alias" or spec.get("pre") == "alias":
         return None
     tol = st["tol"]
-    if tol <= 1e-8:
-        return 1e-7
-    if tol < 1.0 and (well_conditioned(spec) or float(spec["kappa"]) <= 1e2):
-        return 50.0 * tol
+    if tol >= 1.0:
+        return None
+    if exit_kind == "cap" or tol <= 1e-8 or well_conditioned(spec) or float(spec["kappa"]) <= 1e2:
+        return max(50.0 * tol, 1e-5)
     return None
 
 
 def minres_systems(quick, seed):
-    """list of (spec, budgets); deterministic cell enumeration, vseed = f(seed, index)"""
+    """list of (spec, budgets); deterministic cell enumeration, vseed = f(seed, index); the thorough tier runs
+    every cell with 3 independent value draws"""
     out = []
     idx = [0]
+    reps = 1 if quick else 3
 
     def add(spec, budgets):
         idx[0] += 1
-        spec = dict(spec)
-        spec["cell"] = idx[0]
-        spec["vseed"] = seed * 100003 + idx[0]
-        out.append((spec, budgets))
+        for rep in range(reps):
+            sp = dict(spec)
+            sp["cell"] = idx[0]
+            sp["vseed"] = seed * 100003 + idx[0] + 7919 * rep
+            out.append((sp, budgets if rep == 0 else [b for b in budgets if b is None or b in (2, 4, 8, 9)]))
 
     # (A) shift kind x batch x rhs shape: the squeeze / broadcast / masking cells
     i = 0
@@ -105,7 +110,7 @@ def minres_systems(quick, seed):
                 continue
             if sk["kind"] == "partial" and len(batch) < 2:
                 continue
-            for cols in (["n", "nzn", "tnh"] if quick else COLS):
+            for cols in (["n", "nzn", "tnhs"] if quick else COLS):
                 i += 1
                 fam, kappa = FAMS[i % len(FAMS)]
                 n = [1, 2, 3, 5, 8, 12][i % 6]
@@ -167,4 +172,80 @@ def minres_systems(quick, seed):
             fam, kappa = ("identity", 1.0) if mm in ("alias", "clone") else ("uniform", 10.0)
             add({"n": 5, "cols": "nn", "batch": [], "fam": fam, "kappa": kappa, "shifts": sk,
                  "value": [None, 2.0][i % 2], "pre": pre, "mm": mm}, [2, None])
+    return out
+
+
+# ------------------------------------------------------------------------------------------ contour integral quadrature
+
+WELL = [("uniform", 10.0, 1.0), ("few3", 1e2, 50.0), ("uniform", 4.0, 0.02)]
+ILL = [("geometric", 1e2, 1.0), ("clustered", 1e4, 1.0), ("geometric", 1e3, 5.0)]
+
+
+def ciq_specs(quick, seed):
+    """list of specs for contour_integral_quad / sqrt_inv_matmul / ciq sampling; `model` says whether the values are
+    compared with the Gallina model (whole MINRES runs: only well-conditioned spectra, DESIGN 2.4)"""
+    out = []
+    idx = [0]
+    reps = 1 if quick else 3
+
+    def add(**kw):
+        for rep in range(reps):
+            idx[0] += 1
+            k2 = dict(kw)
+            k2["cell"] = idx[0]
+            k2["vseed"] = seed * 100003 + 5000 + idx[0]
+            k2.setdefault("rhs_batch", "full")
+            out.append(k2)
+
+    i = 0
+    ops = [("dense", None), ("constmul", None), ("sum", None), ("root", None), ("added_diag", None),
+           ("kron", (2, 3)), ("kron", (3, 4)), ("diag", None)]
+    for op, fac in ops:
+        for batch in ([[], [2]] if op != "dense" else [[], [2], [2, 3]]):
+            for call, variants in [("direct", [True, False]), ("sim", [None, 1, 2]), ("sample", [None])]:
+                if op == "diag" and call == "sample":
+                    continue
+                for var in variants:
+                    i += 1
+                    fam, kappa, scale = WELL[i % len(WELL)]
+                    n = fac[0] * fac[1] if fac else [2, 3, 5, 8, 12][i % 5]
+                    if call == "sample":
+                        if fac and n > 6:
+                            continue
+                        n = n if fac else min(n, 6)
+                    spec = {"op": op, "n": n, "batch": batch, "t": [1, 2, 3][i % 3], "fam": fam, "kappa": kappa,
+                            "scale": scale, "call": call, "model": True,
+                            "set_nq": [None, 6, 20][i % 3], "set_tol": [None, 1e-10][i % 2]}
+                    if fac:
+                        spec["factors"] = list(fac)
+                    if call == "direct":
+                        spec["inverse"] = var
+                        spec["rhs_batch"] = "full" if i % 4 else "none"
+                    elif call == "sim":
+                        spec["lhs"] = var
+                        spec["inverse"] = True
+                    else:
+                        spec["inverse"] = False
+                    add(**spec)
+    # predicates only: the quantifier of the property beyond what trajectories allow to compare
+    for n in ([20, 40] if quick else [12, 20, 30, 40]):
+        for fam, kappa, scale in ILL:
+            if not (n <= 20 or kappa <= 1e2):
+                continue
+            for call in ["direct", "sim"]:
+                i += 1
+                add(op="dense", n=n, batch=[] if i % 2 else [2], t=2, fam=fam, kappa=kappa, scale=scale, call=call,
+                    model=False, inverse=True, lhs=None, set_nq=None, set_tol=[None, 1e-10][i % 2])
+    # n = 1 and the 1 x 1 sampling special case neighbourhood
+    for call in ["direct", "sim"]:
+        i += 1
+        add(op="dense", n=1, batch=[2], t=2, fam="uniform", kappa=9.0, scale=1.0, call=call, model=True, inverse=True,
+            lhs=None, set_nq=None, set_tol=None)
+    # known-finding cells
+    add(op="identity", n=5, batch=[], t=2, fam="identity", kappa=1.0, scale=1.0, call="direct", model=True,
+        inverse=True, set_nq=None, set_tol=None)
+    add(op="identity", n=4, batch=[2], t=1, fam="identity", kappa=1.0, scale=1.0, call="sim", model=False,
+        inverse=True, lhs=1, set_nq=None, set_tol=None)
+    add(op="dense", n=20, batch=[], t=2, fam="geometric", kappa=1e4, scale=1.0, call="sim", model=False, inverse=True,
+        lhs=None, set_nq=None, set_tol=1e-10)
     return out
